@@ -225,3 +225,12 @@ Example mail_digest :
   (do td <- decode_typed_data mail_doc; EncodeTypedDataV4 keccak256 (fun _ => None) (Some td))
   = Ok (unhex "be609aee343fb3c4b28e1df9e632fca64fcfaede20f02e86244efddf30957bd2").
 Proof. vm_compute. reflexivity. Qed.
+
+(* self-test of code 8: "00e-1" offered as a JSON number is not an RFC 8259 number; the case agrees
+   when the implementation refuses the document and is reported when it hashes it; a document tree
+   carrying such a token is reported *)
+Example code8_selftest :
+  check_num true 8 true (bs "00e-1") (Some 0%Z) false (fun _ => None) 1 [] = 0%N /\
+  check_num true 8 true (bs "00e-1") (Some 0%Z) false (fun _ => None) 0 [] = 8%N /\
+  check_doc (JObj [(bs "message", JObj [(bs "x", JNum (bs "010"))])]) (fun _ => None) 0 (0, 0, 0)%N 1 [] 0 1 [] = 8%N.
+Proof. split; [vm_compute; reflexivity|]. split; vm_compute; reflexivity. Qed.
